@@ -386,7 +386,17 @@ fn navigation(thorough: bool, seed: u64, rep: &mut Report) {
             if let json_syntax::FragmentRef::Value(x) = f { if cm.get(*i).unwrap().volume != x.traverse().count() { fail(rep, "volume == number of fragments of the subtree", format!("index {}", i)); } }
         }
         for d in 0..3 { match v.get_fragment(frags.len() + d) { Err(r) if r == d => {}, other => fail(rep, "index past the end rejected with the remaining distance", format!("{} -> {:?}", frags.len() + d, other.err())) } }
-        if v.volume() != frags.iter().filter(|(_, f)| f.is_value()).count() || v.count(|_, _| true) != frags.len() { fail(rep, "volume()/count() agree with the traversal", "".into()); }
+        // (the oracle counts by pattern, not through the library's own `is_value`: seeded change C11-r17A2)
+        let n_values = frags.iter().filter(|(_, f)| matches!(f, json_syntax::FragmentRef::Value(_))).count();
+        if v.volume() != n_values || v.count(|_, _| true) != frags.len() { fail(rep, "volume()/count() agree with the traversal", format!("volume() = {}, values in the traversal = {}", v.volume(), n_values)); }
+        // every sub-value's volume too, and the fragment predicates against the pattern they stand for
+        for (i, f) in &frags {
+            use json_syntax::FragmentRef as FR;
+            if let FR::Value(x) = f { let n = x.traverse().filter(|(_, g)| matches!(g, FR::Value(_))).count(); if x.volume() != n { fail(rep, "volume()/count() agree with the traversal", format!("sub-value at index {}: volume() = {}, values in its traversal = {}", i, x.volume(), n)); } }
+            let want = [matches!(f, FR::Entry(_)), matches!(f, FR::Key(_)), matches!(f, FR::Value(_)), matches!(f, FR::Value(Value::Null)), matches!(f, FR::Value(Value::Number(_))), matches!(f, FR::Value(Value::String(_))), matches!(f, FR::Value(Value::Array(_))), matches!(f, FR::Value(Value::Object(_)))];
+            let got = [f.is_entry(), f.is_key(), f.is_value(), f.is_null(), f.is_number(), f.is_string(), f.is_array(), f.is_object()];
+            if got != want { fail(rep, "volume()/count() agree with the traversal", format!("fragment predicates (is_entry, is_key, is_value, is_null, is_number, is_string, is_array, is_object) of fragment {}: got {:?} expected {:?}", i, got, want)); }
+        }
         // `count` hands its predicate every fragment with its traversal number, in order, and counts exactly the accepted ones
         { let mut seen: Vec<(usize, u8)> = Vec::new();
           let tag = |f: &json_syntax::FragmentRef| -> u8 { if f.is_entry() { 1 } else if f.is_key() { 2 } else { 3 } };
